@@ -231,6 +231,17 @@ def _(c):
     )
 
 
+# C09 is only about "the default configuration is then written without error"
+_REG_WC = None
+from pyvc.contracts import REGISTRY as _REG0
+
+_REG0.contracts["bellows.ezsp.EZSP.write_config"].restrict(
+    "C09",
+    cases=lambda label: label.endswith("no overrides"),
+    obligations=lambda name: "::exc." in name or "::raises." in name or ".each.exc." in name,
+)
+
+
 def _capacity_defaults_table(tier):
     """Table obligation on the live DEFAULT_CONFIG: every capacity setting is grow-only in every version."""
     out = []
